@@ -15,8 +15,14 @@ def _idx_vs_start(f, rv):
         if p is None:
             return None
         r = f.root_of(op)
-        if r[0] == "place" and not r[1]["p"] and (f.local_name(r[1]["l"]) or "").startswith("start_idx"):
-            return r[1]["l"]
+        if r[0] == "place" and not r[1]["p"]:
+            l = r[1]["l"]
+            # a named local whose only definition is a copy of `tokens.idx` (whatever it is called)
+            ds = [d for d in f.defs.get(l, []) if d[1] != "term" and not d[2]["place"]["p"]]
+            if len(ds) == 1 and ds[0][2]["rv"]["k"] == "use":
+                q = M.op_place(ds[0][2]["rv"]["a"])
+                if q is not None and f.field_path(q)[-1:] == ["idx"]:
+                    return l
         return None
     a, b = rv["a"], rv["b"]
     if is_idx(a) and start_local(b) is not None:
